@@ -29,7 +29,8 @@ RULE = (
     "long-lived Sphinx application with shared configuration objects (Sphinx histories); up to 25 steps. Oracle: the output of every step (pformat of the doctree + warnings) equals the "
     "reference output of that pair computed in a *pristine process* - a fork of a server process that imported the "
     "packages but never parsed anything (one fresh fork per reference; Sphinx references in a fresh application). "
-    "(parallel) generated Sphinx projects of 8-12 documents (cross-document links, includes, substitutions, "
+    "(pairs) every writer document x every observer document (and the writer again) with one shared configuration "
+    "object, exhaustively; (parallel) generated Sphinx projects of 8-12 documents (cross-document links, includes, substitutions, "
     "footnotes, amsmath, per-document front matter) built with 1 read worker and with N in {2, 3, 4} read workers: "
     "every written .html file byte-identical, sorted warning lines equal. Non-trivial: a history of >= 3 parses over "
     ">= 2 distinct documents in which a state-touching document precedes another document, or a parallel build "
@@ -211,6 +212,14 @@ STATEFUL = [
     "---\nmyst:\n  heading_anchors: 3\n  url_schemes: [wiki]\n---\n# A\n\n[w](wiki:x) [h](http://e.org)\n",
     "```{contents}\n```\n\n# One\n\n## Two\n",
     "{#id1}\npara\n\n{#id1}\npara two\n\n[x]{#id1}\n",
+    # links of a url scheme that carries classes, with classes / ids of their own (attrs_inline)
+    "[a](x:page){.special #lk} and [b](wiki:Fish){.w2 .w3} then [c](x:other) <wiki:Auto>\n",
+    # HTML that ends inside a construct (unterminated tag, comment, script, entity), as block and inline
+    "<div class=\"admonition\n\npara after unterminated tag\n\n<img src=\"o.png\">\n",
+    "<!-- unterminated comment\n\npara after comment\n",
+    "<script>\nunclosed script\n\npara after script\n",
+    "text &am\n\n<\n\n<img src=\"a.png\" alt=\"unterminated\n",
+    "<div class=\"admonition note\">\n<p class=\"title\">T</p>\ninner *md* <b>\n</div>\n\n<img src=\"b.png\" class=\"c\" alt>\n",
 ]
 
 
@@ -222,6 +231,8 @@ OBSERVERS = [
     "{{ key1 }} {{ cyc }}\n\n[^a] [^inc]\n\n[r][ref1] [ref1]\n",                             # substitution context, footnotes, reference definitions
     "\\begin{equation}\nz\n\\end{equation}\n\n$$\ny\n$$ (lbl)\n\n[](#lbl) <inv:#other>\n",    # equation labels / numbering, inventories
     "~~strike~~ and www.e.org and (c) and - [ ] task\n\nTerm\n: def\n",                       # extensions enabled by another document's front matter
+    "[c](x:obs) and <wiki:Obs> and [d](wiki:D){.own}\n",                                          # classes accumulated on a url scheme
+    "<img src=\"o2.png\" alt=\"obs\">\n\n<div class=\"admonition tip\">\n<p>obs body</p>\n</div>\n\npara <img src=\"i.png\"> inline\n",  # HTML tokenizer state
 ]
 
 
@@ -254,6 +265,9 @@ def clean_cfg(cfg):
                                                                                  "attrs_inline"})
     cfg.setdefault("substitutions", {})
     cfg["substitutions"] = {"key1": "value *1*", "blockkey": "- a\n- b", "cyc": "{{ cyc }}", **cfg["substitutions"]}
+    # url schemes in every documented form, two of them carrying classes
+    cfg["url_schemes"] = {"http": None, "https": None, "x": {"url": "https://x.org/{{path}}", "title": "X {{path}}", "classes": ["xc"]},
+                          "wiki": {"url": "https://w.org/{{path}}#{{fragment}}", "classes": ["w1"]}, "mailto": None}
     return cfg
 
 
@@ -497,8 +511,77 @@ def sub_parallel(acc, shard, nshards, tier, seed):
                  sample={"workers": workers, "documents": n_docs, "html_files": len(h1), "warnings": len(w1), "doc1": files["doc1.md"][:300]})
 
 
+def sub_pairs(acc, shard, nshards, tier, seed):
+    """Every (writer, observer) pair and every (writer, writer-again) pair, with one shared configuration object: parse
+    the writer, then the second document; the second output must equal its pristine reference (exhaustive over the
+    document tables; docutils renderer with a shared config in all shards, long-lived Sphinx app in addition)."""
+    pristine = Pristine()
+    snapshot = _snapshot_docutils_registries()
+    mk = acc.violation
+    kn = known()
+    inv_dir = tempfile.mkdtemp(prefix="verif-c15-inv-")
+    tmp = tempfile.mkdtemp(prefix="verif-c15-")
+    from checks.c14_warnings import write_inventory
+
+    write_inventory(inv_dir)
+    for name, content in INC.items():
+        with open(os.path.join(tmp, name), "w") as fh:
+            fh.write(content)
+    base_cfg = clean_cfg({"enable_extensions": ["html_image", "html_admonition", "strikethrough", "colon_fence", "deflist", "tasklist"],
+                          "heading_anchors": 2})
+    seconds = [("obs", k, t) for k, t in enumerate(OBSERVERS)]
+    modes = ["shared", "sphinx"] if shard % 2 == 0 else ["shared"]
+    i = 0
+    try:
+        for mode in modes:
+            for wi, wtext in enumerate(STATEFUL):
+                for kind, k, otext in seconds + [("again", wi, wtext)]:
+                    i += 1
+                    if i % nshards != shard:
+                        continue
+                    if mode == "sphinx" and tier == "quick" and (wi + k) % 3:
+                        continue
+                    cfg = dict(base_cfg)
+                    if mode != "sphinx":
+                        cfg["inventories"] = {"good": ["https://e.org/", os.path.join(inv_dir, "objects.inv")]}
+                    shared = {}
+                    _restore_docutils_registries(snapshot)
+                    if mode == "sphinx":
+                        shared["sphinx"] = front.SphinxProject()
+                    try:
+                        status, ref = pristine.reference({"mode": mode, "text": otext, "cfg": cfg, "files": INC})
+                        try:
+                            run_mode(mode, wtext, cfg, tmp, shared)
+                        except Exception:  # noqa: BLE001
+                            pass
+                        try:
+                            got = ("ok", run_mode(mode, otext, cfg, tmp, shared))
+                        except Exception as exc:  # noqa: BLE001
+                            got = ("exc", f"{type(exc).__name__}: {exc}")
+                    finally:
+                        if "sphinx" in shared:
+                            shared["sphinx"].close()
+                    case = {"history": [[mode, 0], [mode, 1]], "pool": [{"text": wtext, "cfg": cfg}, {"text": otext, "cfg": cfg}]}
+                    acc.case(("pairs", mode, wi, kind, k), True, [f"mode:{mode}", f"second:{kind}"],
+                             sample={"mode": mode, "first": wtext[:120], "second": otext[:120]})
+                    if got != (status, ref) and not (status == "exc" and got[0] == "exc"):
+                        a, b = ref if status == "ok" else "EXC " + ref, got[1] if got[0] == "ok" else "EXC " + got[1]
+                        j = next((x for x in range(min(len(a), len(b))) if a[x] != b[x]), min(len(a), len(b)))
+                        v = mk(f"C15:output-differs-from-pristine:{mode}", case, a[max(0, j - 200):j + 300], b[max(0, j - 200):j + 300])
+                        if kn.matches(v):
+                            acc.known_hits[v["signature"]] += 1
+                        elif len(acc.violations) < 4 and all(v["signature"] != x["signature"] for x in acc.violations):
+                            acc.violations.append(v)
+    finally:
+        pristine.close()
+        shutil.rmtree(inv_dir, ignore_errors=True)
+        shutil.rmtree(tmp, ignore_errors=True)
+    acc.exhaustive = True
+
+
 def plan(tier):
-    return [Sub("history", sub_history, 6), Sub("history_sphinx", sub_history_sphinx, 4), Sub("parallel", sub_parallel, 6)]
+    return [Sub("pairs", sub_pairs, 6), Sub("history", sub_history, 5), Sub("history_sphinx", sub_history_sphinx, 3),
+            Sub("parallel", sub_parallel, 4)]
 
 
 def replay(sub, input):
